@@ -353,6 +353,8 @@ def rule_one_argument_list(ctx, rep: Report, rid="B1", min_emitters=4):
                     srcs = []
                     for a in c.iter.args:
                         v = inline_locals(fn, a)
+                        if isinstance(v, (ast.ListComp, ast.GeneratorExp)) and len(v.generators) == 1 and not v.generators[0].ifs:
+                            v = v.generators[0].iter          # an element-wise mapping of the list keeps length and order
                         srcs.append(unparse(v))
                     if not all(s.startswith(p + ".") and s.endswith("()") for s in srcs):
                         probs.append(f"zip over {srcs}")
@@ -612,9 +614,34 @@ def rule_property_polarity(ctx, rep: Report, rid="B5"):
         atom = f"{loopvar}.ctype.is_const"
         when = _two_way(e, atom)
         ok = when == ("readonly", "readwrite")
-        rep.add(rid, "property:def_readonly iff the declared type is const, else def_readwrite", ok,
-                f"property <- {unparse(e)}: {when[0]!r} for a const type, {when[1]!r} otherwise" if when else f"property <- {unparse(e)}",
-                f"{ci.mod.rel}:{c.lineno}")
+        detail = f"property <- {unparse(e)}: {when[0]!r} for a const type, {when[1]!r} otherwise" if when else f"property <- {unparse(e)}"
+        if not ok and loopvar is not None:
+            # written another way (a helper, a table): the choice is evaluated for every combination of the type's markers
+            from .rules_matlab import SampleObj, _PathEval, _Raised, mini_exec
+            probe = ast.parse(f"def _probe(self, {loopvar}):\n    return 0").body[0]
+            probe.body[0].value = inline_locals(fn, e)
+            wrong, err = [], None
+            for const in ("const", ""):
+                for sp in ("*", ""):
+                    for rp in ("@", ""):
+                        for ref in ("&", ""):
+                            ct = SampleObj(__kind__="Type", is_const=const, is_shared_ptr=sp, is_ptr=rp, is_ref=ref, is_basic=False,
+                                           typename=SampleObj(name="T", namespaces=[], instantiations=[]))
+                            try:
+                                got = mini_exec(probe, {"self": SampleObj(), loopvar: SampleObj(__kind__="Variable", name="p", ctype=ct, default=None)},
+                                                methods=dict(ci.methods))
+                            except (_PathEval.Unknown, _Raised, TypeError) as ex:
+                                err = str(ex)
+                                break
+                            # `const T@` is a pointer to const: the member itself can be re-seated, either registration is right
+                            want = ("readonly", "readwrite") if (const and rp and not sp) else (("readonly",) if const else ("readwrite",))
+                            if got not in want:
+                                wrong.append(f"{'const ' if const else ''}T{sp}{rp}{ref} -> def_{got}")
+            if err is None:
+                ok = not wrong
+                detail = (f"property <- {unparse(e)[:60]}, evaluated for every combination of const / * / @ / &: {wrong[:3]}: a const member (`const T*` is a "
+                          f"const std::shared_ptr<T>) registered def_readwrite does not compile, a mutable one registered def_readonly cannot be assigned")
+        rep.add(rid, "property:def_readonly iff the declared type is const, else def_readwrite", ok, detail, f"{ci.mod.rel}:{c.lineno}")
         lit = t.literal("@").replace(" ", "")
         slots = t.slots()
         texts = [unparse(s_.val) for s_ in slots]
@@ -2129,3 +2156,92 @@ def rule_free_function_binding_is_name_independent(ctx, rep: Report, rid="B12"):
     rep.add(rid, "wrap_functions:the binding of a free function depends on its name only through the keyword table", not hits,
             f"{hits[:4]}: a free function with one of these names gets the binding of a class member of that name (a `self` receiver, pickling, "
             f"`__repr__`, a renamed or dropped binding) instead of a call of the declared function", f"{ci.mod.rel}:{fn.lineno}")
+
+
+def _sample_callable(kind: str, names: List[str], defaults: Optional[Dict[str, str]] = None, void: bool = False, name: str = "blend"):
+    """A sample declaration (free function / method / static method) for running the emitters on."""
+    from .rules_matlab import SampleObj
+    types = ["double", "const ns::K&", "int", "size_t", "bool", "std::string"]
+    args_list = [SampleObj(__kind__="Argument", name=n_, default=(defaults or {}).get(n_),
+                           ctype=SampleObj(__kind__="Type", to_cpp=(lambda t_=types[i % len(types)]: t_), is_const=False, is_ref=False))
+                 for i, n_ in enumerate(names)]
+    args = SampleObj(__kind__="ArgumentList", args_list=args_list, names=lambda: [a["name"] for a in args_list],
+                     to_cpp=lambda: [a["ctype"]["to_cpp"]() for a in args_list], list=lambda: list(args_list))
+    return SampleObj(__kind__=kind, name=name, to_cpp=lambda: name, template="", is_const=False,
+                     return_type=SampleObj(__kind__="ReturnType", is_void=lambda: void), args=args, parent=SampleObj(name="K"))
+
+
+def _lambda_parts(text: str):
+    """[(parameter names of the lambda, identifiers passed in the first call of its body)] for every `[](...){...}` in text."""
+    out = []
+    for m in re.finditer(r"\[\]\(([^)]*)\)\s*\{(.*?)\}", text, re.S):
+        params = []
+        for p in [x.strip() for x in m.group(1).split(",") if x.strip()]:
+            ids = re.findall(r"[A-Za-z_]\w*", p)
+            if ids:
+                params.append(ids[-1])
+        body = m.group(2)
+        call = re.search(r"([A-Za-z_][\w:>\-\.]*)\s*\(([^()]*)\)\s*;", body)
+        passed = [x.strip() for x in call.group(2).split(",") if x.strip()] if call else None
+        out.append((params, passed, call.group(1) if call else None))
+    return out
+
+
+def rule_lambda_names_by_evaluation(ctx, rep: Report, rid="W12"):
+    """The lambda a binding is made of declares its parameters and passes them on: every name in the call inside the body is a
+    parameter of that lambda, in declaration order.  Decided by running the emitters for free functions, methods and static
+    methods (the analyser's own interpreter, sample declarations whose parameter names include Python keywords that are
+    plain identifiers in C++: `from`, `in`, `lambda`) and reading the emitted text - a renaming applied to the signature but
+    not to the call (or the other way round) gives a translation unit that does not compile."""
+    from .rules_matlab import SampleObj, _PathEval, _Raised, mini_exec
+    ci, prog = pw(ctx)
+    methods = dict(ci.methods)
+    names = ["from", "x1", "lambda", "count"]
+    kw = sorted(keyword.kwlist)
+    me = SampleObj(python_keywords=list(kw), method_indent="\n        ", use_boost_serialization=False, xml_source="", _serializing_classes=[],
+                   _ipython_special_methods=["svg", "png", "jpeg", "html", "javascript", "markdown", "latex"], ignore_classes=[])
+    init = ci.methods.get("__init__")
+    # plain constants the constructor stores are taken from there when they differ from the stand-ins above
+    for st in (walk_no_nested(init) if init is not None else ()):
+        if isinstance(st, ast.Assign) and len(st.targets) == 1 and isinstance(st.targets[0], ast.Attribute) and unparse(st.targets[0].value) == "self":
+            try:
+                me[st.targets[0].attr] = ast.literal_eval(st.value)
+            except Exception:
+                pass
+    runs = [("wrap_functions", {"functions": [_sample_callable("GlobalFunction", names)], "namespace": "ns", "prefix": "\n    m_", "suffix": ";"}),
+            ("_wrap_method", {"method": _sample_callable("Method", names), "cpp_class": "ns::K", "prefix": "\n        ", "suffix": "", "method_suffix": ""}),
+            ("_wrap_method", {"method": _sample_callable("StaticMethod", names), "cpp_class": "ns::K", "prefix": "\n        ", "suffix": "", "method_suffix": ""})]
+    evaluated = 0
+    for mname, args in runs:
+        fn = prog.method("PybindWrapper", mname)
+        ps = func_params(fn)
+        env = {"self": me}
+        for p_, d_ in zip(ps[len(ps) - len(fn.args.defaults):], fn.args.defaults):
+            try:
+                env[p_] = ast.literal_eval(d_)
+            except Exception:
+                env[p_] = ""
+        env.update({k: v for k, v in args.items() if k in ps})
+        if any(p_ not in env for p_ in ps):
+            continue
+        kind = (args.get("method") or args["functions"][0])["__kind__"]
+        try:
+            text = mini_exec(fn, env, budget=6000, methods=methods)
+        except (_PathEval.Unknown, _Raised, TypeError, KeyError):
+            continue
+        if not isinstance(text, str):
+            continue
+        parts = _lambda_parts(text)
+        if not parts:
+            continue
+        evaluated += 1
+        params, passed, callee_ = parts[0]
+        own = [p for p in params if p != "self"]
+        ok = passed is not None and passed == own and len(own) == len(names)
+        rep.add(rid, f"{mname}:{kind}:the names passed to the call are the lambda's own parameters, in order", ok,
+                f"for parameters named {names} the lambda declares {own} and its body calls {callee_}({', '.join(passed or [])}): a name that is not a "
+                f"parameter of the lambda is not declared in that scope - the generated unit does not compile", f"{ci.mod.rel}:{fn.lineno}")
+    rep.units["emitters_evaluated_on_samples"] = evaluated
+    if evaluated == 0:
+        rep.add(rid, "emitters evaluated on sample declarations", True, "none of the emitters could be run by the interpreter; W4 decides by structure", f"{ci.mod.rel}:0",
+                nontrivial=False)
